@@ -12,6 +12,7 @@ import (
 	"os"
 	"path/filepath"
 	"strings"
+	"time"
 )
 
 type loopCtx struct {
@@ -59,6 +60,7 @@ type Exec struct {
 	roundCache map[int]*Term
 	roundFacts map[int][]*Term
 	feasChecks int
+	deadline   time.Time
 	widthDone  map[string][]*Term
 	noInvFor   map[*types.Named]bool // types whose invariant is not assumed for parameters (object under construction)
 }
@@ -457,6 +459,12 @@ func (x *Exec) contractCall(callee *types.Func, d *Decl, args []Value, st *State
 	case 0:
 	case 1:
 		res = x.freshValue(name, sig.Results().At(0).Type(), 0, st, false)
+		if sv, isStr := res.(*StrV); isStr && sv.Opaque {
+			// a string result defined by `ensures result == E`: use E itself (strings have no SMT representation here)
+			if dv := x.definingEnsures(pk, d, cargs, st); dv != nil {
+				res = dv
+			}
+		}
 		if s, ok := res.(*StructV); ok {
 			s.Nil = tFalse
 			if d.nullable() {
@@ -638,6 +646,9 @@ func (x *Exec) lookupTopLevelVar(name string, fd *ast.FuncDecl, st *State) Value
 }
 
 func (x *Exec) execStmt(s ast.Stmt, st *State) *State {
+	if !x.deadline.IsZero() && time.Now().After(x.deadline) {
+		unsup("symbolic execution budget of this unit exceeded (at %s)", x.pos(s))
+	}
 	switch s := s.(type) {
 	case *ast.BlockStmt:
 		return x.execBlock(s.List, st)
@@ -1296,12 +1307,14 @@ func (x *Exec) execRange(s *ast.RangeStmt, st *State) *State {
 	fr := x.top()
 	var elems []Value
 	var keys []Value
+	var slen *Term
 	switch c := coll.(type) {
 	case *SliceV:
 		elems = c.Elems
 		for i := range elems {
 			keys = append(keys, IntV{mkInt(int64(i))})
 		}
+		slen = c.Len
 	case NilV:
 	default:
 		unsup("range over %T at %s", coll, x.pos(s))
@@ -1310,6 +1323,19 @@ func (x *Exec) execRange(s *ast.RangeStmt, st *State) *State {
 	for i := range elems {
 		if st == nil || st.dead() {
 			break
+		}
+		if slen != nil {
+			// element i exists only when i < len
+			c := mkLt(mkInt(int64(i)), slen)
+			if c.isFalse() {
+				break
+			}
+			if !c.isTrue() {
+				e := st.clone()
+				e.assume(mkNot(c))
+				exit = mergeStates(exit, e)
+				st.assume(c)
+			}
 		}
 		if s.Key != nil {
 			x.bindRangeVar(s.Key, keys[i], s.Tok, st)
@@ -1985,7 +2011,7 @@ func (x *Exec) evalIndex(e *ast.IndexExpr, st *State) Value {
 	case *SliceV:
 		idx := x.evalInt(e.Index, st)
 		n := int64(len(b.Elems))
-		x.oblige("index", st, mkAnd(mkLe(mkInt(0), idx), mkLt(idx, mkInt(n))), e, "index in range [0,"+fmt.Sprint(n)+")")
+		x.oblige("index", st, mkAnd(mkLe(mkInt(0), idx), mkLt(idx, b.length())), e, "index in range [0,"+fmt.Sprint(n)+")")
 		return x.selectElem(b.Elems, idx, b.ElemT)
 	case *MapV:
 		v, _ := x.mapLookup(e, st)
@@ -2294,5 +2320,60 @@ func (x *Exec) pkgVar(o *types.Var) Value {
 		}
 	}
 	unsup("no initializer for %s", o.Name())
+	return nil
+}
+
+// definingEnsures: value E of the first clause `ensures result == E` of a contract (nil if there is none).
+func (x *Exec) definingEnsures(pk *Pkg, d *Decl, cargs []Value, st *State) (v Value) {
+	defer func() {
+		if r := recover(); r != nil {
+			if _, ok := r.(unsupported); ok {
+				v = nil
+				return
+			}
+			panic(r)
+		}
+	}()
+	for _, c := range d.Clauses {
+		if c.Kind != "ensures" || c.FnName == "" {
+			continue
+		}
+		fd := pk.Funcs[c.FnName]
+		if fd == nil || len(fd.Body.List) != 1 {
+			continue
+		}
+		ret, ok := fd.Body.List[0].(*ast.ReturnStmt)
+		if !ok || len(ret.Results) != 1 {
+			continue
+		}
+		be, ok := ret.Results[0].(*ast.BinaryExpr)
+		if !ok || be.Op != token.EQL {
+			continue
+		}
+		id, ok := be.X.(*ast.Ident)
+		if !ok || id.Name != "result" {
+			continue
+		}
+		// evaluate the right-hand side with the clause function's parameters bound (result is not mentioned in it)
+		fr := &frame{fn: fd, pkg: pk}
+		x.frames = append(x.frames, fr)
+		x.specMode++
+		func() {
+			defer func() { x.frames = x.frames[:len(x.frames)-1]; x.specMode-- }()
+			i := 0
+			for _, f := range fd.Type.Params.List {
+				for _, n := range f.Names {
+					if i < len(cargs) {
+						if obj, ok := pk.Info.Defs[n].(*types.Var); ok {
+							st.vars[obj] = cargs[i]
+						}
+					}
+					i++
+				}
+			}
+			v = x.eval(be.Y, st)
+		}()
+		return v
+	}
 	return nil
 }
